@@ -33,6 +33,18 @@ CHECKS = {
    text="Generated histories over ThinArc and all fat/protected/raw/unique/arc-swap views of the same allocations, element-by-element comparison (values, identities, addresses, recorded length, count) against the model after every step; wrong recorded lengths fed to into_thin; with_arc_mut callbacks that mutate, replace, swap or panic.",
    note="Trusted: reference model, Tok registry, tracking allocator; header/element shapes are witnesses (alignment <,=,>).",
    technique="model-based property testing of operation histories with fault injection in callbacks (proptest)"),
+ "C05": dict(engine="matrix", category="exploration", design="5 (C05)",
+   text="Generated points of a static shape matrix (8 header x 12 element shapes incl. ZST / padded / over-aligned, 14 lengths, every constructor, every release path); the oracle is observed from the tracking allocator: block geometry versus the addresses the handle exposes, red zones, dealloc layout == alloc layout, exactly one free.",
+   note="Trusted: the tracking allocator; shapes are sampled (8x12), not all 0..64 x 1..64.",
+   technique="property-based testing over a generated shape/constructor/release-path matrix with an allocator-level oracle (proptest)"),
+ "C11": dict(engine="matrix+hist", category="exploration", design="5 (C11)",
+   text="Matrix of payload shapes x handle kinds x into/from pairings with clones and moves in between (round-trip oracle: same block, contents, count; as_ptr == Deref address == into_raw; heap_ptr == allocator block start; handle sizes and niches; bit patterns) plus histories checking address stability across every conversion.",
+   note="Trusted: tracking allocator; ThinArc::as_ptr/into_raw read as the block start (see DESIGN.md C11).",
+   technique="round-trip property testing over a generated shape matrix + model-based histories (proptest)"),
+ "C12": dict(engine="matrix+hist", category="exploration", design="5 (C12)",
+   text="Every ordered pair of shapes, both constructors, generated union histories with variant accessors, addresses, counts and comparisons checked after every op; final free layout checked by the allocator; identity-tracked unions inside the sized-world histories (per-type magic detects a destructor of the wrong type).",
+   note="Trusted: tracking allocator, Tok registry; shapes sampled.",
+   technique="model-based property testing of union histories over a generated shape-pair matrix (proptest)"),
 }
 NOT_YET = {
 }
@@ -64,9 +76,10 @@ m = {
    "add_only": True,
  },
  "engines": [
-   {"name": "sched", "path": "harness/tv/src/sched.rs + harness/rt/src/sim.rs", "serves_properties": ["C02", "C03", "C08", "C09"], "kind_free_text": "schedule engine: generated thread programs under a harness-owned scheduler, operational memory model with stale loads, vector-clock race oracle"},
-   {"name": "hist-thin", "path": "harness/tv/src/hist_thin.rs", "serves_properties": ["C10", "C01", "C03", "C04"], "kind_free_text": "model-based history engine for the thin world (ThinArc and its fat views)"},
-   {"name": "hist", "path": "harness/tv/src/hist_sized.rs", "serves_properties": ["C01", "C03", "C04", "C08", "C09"], "kind_free_text": "model-based history engine (proptest-generated op sequences, reference model, tracking allocator, identity-tracked payloads)"},
+   {"name": "sched", "path": "harness/hist/src/sched.rs + harness/rt/src/sim.rs", "serves_properties": ["C02", "C03", "C08", "C09"], "kind_free_text": "schedule engine: generated thread programs under a harness-owned scheduler, operational memory model with stale loads, vector-clock race oracle"},
+   {"name": "hist-thin", "path": "harness/hist/src/hist_thin.rs", "serves_properties": ["C10", "C01", "C03", "C04"], "kind_free_text": "model-based history engine for the thin world (ThinArc and its fat views)"},
+   {"name": "matrix", "path": "harness/mx/src/lib.rs", "serves_properties": ["C05", "C11", "C12"], "kind_free_text": "static shape matrix engine with an allocator-level observed oracle"},
+   {"name": "hist", "path": "harness/hist/src/hist_sized.rs", "serves_properties": ["C01", "C03", "C04", "C08", "C09"], "kind_free_text": "model-based history engine (proptest-generated op sequences, reference model, tracking allocator, identity-tracked payloads)"},
  ],
  "checks": checks,
  "not_applicable": na,
